@@ -914,6 +914,128 @@ fn run_case(sink: &mut CaseSink, stats: &mut Stats, case_seed: u64, special: Opt
     if c1 == 0 || c2 == 0 { stats.hit("final-inconclusive"); } else { stats.hit("final-compared"); }
 }
 
+
+// ------------------------------------------------------------------ time-limit stream
+/// A re-used solver with a finite time limit must not run out of time because of earlier
+/// solves.  Timers are observed, not modelled.  The limit is calibrated on a dry run of the
+/// same kind of history; rounds (update_q / update_b + solve) continue until the SUM of the
+/// solve calls exceeds 3x the limit.  Verdict rules (evaluated in Coq, `c08_timelimit`) cannot
+/// false-alarm under load: see Update/Check.v.
+fn run_timelimit(sink: &mut CaseSink, stats: &mut Stats, case_seed: u64) {
+    use std::time::Instant;
+    // solve_time = setup timer + solve timer + post-process timer of THIS call, each measured
+    // inside the bracketed calls with the same monotonic clock: the inequality
+    // reported <= constructor call + solve call holds exactly; 50 us of slack is generosity
+    const SLACK: f64 = 5e-5;
+    let mut r = Rng::new(case_seed ^ 0x7131);
+    let eq = r.chance(1, 2);
+    // small strictly convex QP with nonnegative rows: x = 0 strictly feasible
+    let n = 2 + r.below(3);
+    let m = 2 + r.below(4);
+    let (mut colptr, mut rowval, mut nzval) = (vec![0usize], vec![], vec![]);
+    for j in 0..n { rowval.push(j); nzval.push(pdiag(&mut r)); colptr.push(rowval.len()); }
+    let P = CscMatrix { m: n, n, colptr, rowval, nzval };
+    let (mut colptr, mut rowval, mut nzval) = (vec![0usize], vec![], vec![]);
+    for _j in 0..n {
+        for i in 0..m { if r.chance(1, 2) { rowval.push(i); nzval.push(val(&mut r)); } }
+        colptr.push(rowval.len());
+    }
+    let A = CscMatrix { m, n, colptr, rowval, nzval };
+    let q0: Vec<f64> = (0..n).map(|_| val(&mut r)).collect();
+    let b0: Vec<f64> = (0..m).map(|_| bval(&mut r, Role::Pos)).collect();
+    let cones = vec![NonnegativeConeT(m)];
+    let mut st = settings(eq, "qdldl");
+    stats.hit("stream/timelimit");
+    // one round: an accepted update of q or b, then a solve; returns (status, wall seconds of the solve call)
+    let round = |s: &mut DefaultSolver<f64>, r: &mut Rng, uq: &mut Vec<f64>, ub: &mut Vec<f64>| -> Option<(SolverStatus, f64, f64)> {
+        let ok = if r.chance(1, 2) {
+            *uq = (0..uq.len()).map(|_| val(r)).collect();
+            guarded(|| s.update_q(&*uq).is_ok())
+        } else {
+            let k = r.below(ub.len());
+            ub[k] = bval(r, Role::Pos);
+            let (i, v) = (vec![k], vec![ub[k]]);
+            guarded(|| s.update_b(&(i, v)).is_ok())
+        };
+        if ok != Some(true) { return None; }
+        let t = Instant::now();
+        guarded(|| s.solve())?;
+        let dt = t.elapsed().as_secs_f64();
+        Some((s.solution.status, dt, s.solution.solve_time))
+    };
+    // ---- dry run without a limit: calibrate
+    let t = Instant::now();
+    let dry = guarded(|| DefaultSolver::new(&P, &q0, &A, &b0, &cones, st.clone()));
+    let tnew_dry = t.elapsed().as_secs_f64();
+    let mut dry = match dry { Some(d) => d, None => { stats.hit("timelimit-constructor-panicked"); return; } };
+    let (mut uq, mut ub) = (q0.clone(), b0.clone());
+    let mut tmax: f64 = 0.0;
+    let mut rd = Rng::new(case_seed ^ 0x55);
+    for _ in 0..40 {
+        match round(&mut dry, &mut rd, &mut uq, &mut ub) {
+            Some((_, dt, _)) => { tmax = tmax.max(dt); }
+            None => { stats.hit("timelimit-dry-run-failed"); return; }
+        }
+    }
+    let limit = (8.0 * (tmax + tnew_dry)).max(0.02);
+    // ---- the run with the limit
+    st.time_limit = limit;
+    let t = Instant::now();
+    let solver = guarded(|| DefaultSolver::new(&P, &q0, &A, &b0, &cones, st.clone()));
+    let tnew = t.elapsed().as_secs_f64();
+    let mut solver = match solver { Some(s) => s, None => { stats.hit("timelimit-constructor-panicked"); return; } };
+    let (mut uq, mut ub) = (q0.clone(), b0.clone());
+    let mut recs: Vec<(usize, f64, f64)> = vec![];
+    let mut sum = 0.0;
+    let started = Instant::now();
+    let mut flagged: Vec<Value> = vec![];
+    let mut early_maxtime = 0usize;
+    let mut loaded_maxtime = 0usize;
+    while sum < 3.5 * limit && recs.len() < 40000 && started.elapsed().as_secs_f64() < 6.0 {
+        match round(&mut solver, &mut r, &mut uq, &mut ub) {
+            Some((status, dt, rep)) => {
+                let code = if status == SolverStatus::MaxTime { 7 } else { status_class(status).0 };
+                if code == 7 {
+                    if tnew + dt < limit { early_maxtime += 1; } else { loaded_maxtime += 1; }
+                }
+                if rep > tnew + dt + SLACK && flagged.len() < 3 {
+                    flagged.push(json!({"direct_record": "solve_time-exceeds-wall-time-of-own-call", "case_seed": case_seed,
+                        "solve_index": recs.len(), "reported_solve_time": rep, "measured_constructor_call": tnew, "measured_solve_call": dt,
+                        "text": "solution.solve_time (setup + solve timers) is larger than the wall time of the constructor call plus this solve call: the solve timer was not reset"}));
+                }
+                sum += dt;
+                recs.push((code, dt, rep));
+                if code == 7 && recs.len() > 50 && early_maxtime > 3 { break; } // enough evidence
+            }
+            None => { stats.hit("timelimit-round-failed"); break; }
+        }
+    }
+    let powered = sum >= 3.0 * limit;
+    stats.hit(if powered { "timelimit-powered(sum of solves >= 3x limit)" } else { "timelimit-underpowered" });
+    if early_maxtime > 0 { stats.hit("timelimit-MaxTime-before-limit"); }
+    if loaded_maxtime > 0 { stats.hit("timelimit-MaxTime-after-limit(load, inconclusive)"); }
+    for f in flagged { sink.record(f); }
+    // final: the re-used solver's last verdict vs a fresh solver on the final data, same limit
+    let t = Instant::now();
+    let fresh = guarded(|| { let mut f = DefaultSolver::new(&P, &uq, &A, &ub, &cones, st.clone()); f.solve(); f });
+    let tfresh = t.elapsed().as_secs_f64();
+    let mut parts = vec![format!("c08_timelimit {} {} {} {}", cdy(limit), cdy(tnew), cdy(SLACK),
+        clist(&recs, |(c, dt, rep)| format!("({}, {}, {})", cn(*c), cdy(*dt), cdy(if rep.is_finite() { *rep } else { 0.0 }))))];
+    let mut fin = json!(null);
+    if let (Some(f), Some(last)) = (fresh, recs.last()) {
+        let cf = if f.solution.status == SolverStatus::MaxTime { 0 } else { status_class(f.solution.status).0 };
+        let cu = if last.0 == 7 { 0 } else { last.0 }; // MaxTime: rule 1 of c08_timelimit decides; here inconclusive
+        let z = |x: f64| if x.is_finite() { x } else { 0.0 };
+        parts.push(format!("c08_final {} {} {} {} {} 50", cn(cu), cn(cf), cdy(z(solver.solution.obj_val)), cdy(z(f.solution.obj_val)), cdy(st.tol_gap_abs.max(st.tol_gap_rel).max(st.tol_feas))));
+        fin = json!({"status_updated": format!("{:?}", solver.solution.status), "status_fresh": format!("{:?}", f.solution.status), "fresh_call_s": tfresh});
+    }
+    let input = json!({"case_seed": case_seed, "stream": "timelimit", "equilibrate": eq, "n": n, "m": m,
+        "time_limit_s": limit, "calibration": {"longest_dry_solve_s": tmax, "constructor_s": tnew_dry},
+        "solves": recs.len(), "sum_of_solve_calls_s": sum, "powered": powered,
+        "maxtime_before_limit": early_maxtime, "maxtime_after_limit": loaded_maxtime, "final": fin});
+    sink.case("timelimit", input, format!("maxl [{}]", parts.join(";\n ")), &["timelimit"]);
+}
+
 /// the b-capping caveat: a fresh solver caps b at the infinity bound, update_b does not
 fn b_cap_observation(sink: &mut CaseSink) {
     let P = CscMatrix { m: 1, n: 1, colptr: vec![0, 1], rowval: vec![0], nzval: vec![4.0] };
@@ -964,6 +1086,7 @@ fn main() {
             let inp = if c.get("input").is_some() { &c["input"] } else { &c };
             if let Some(cs) = inp.get("case_seed").and_then(|x| x.as_u64()) {
                 let stream = inp.get("stream").and_then(|x| x.as_str()).unwrap_or("");
+                if stream == "timelimit" { run_timelimit(sink, stats, cs); continue; }
                 let sp = match stream { "presolve" => Some(Special { presolve: true, chordal: false }), "chordal" => Some(Special { presolve: false, chordal: true }), _ => None };
                 run_case(sink, stats, cs, sp);
             }
@@ -989,6 +1112,11 @@ fn main() {
                      else if k % 40 == 13 && blas_shim::AVAILABLE { Some(Special { presolve: false, chordal: true }) }
                      else { None };
             run_case(&mut sink, &mut stats, cs, sp);
+        }
+        let ntl = if tier == "thorough" { 12 } else { 3 };
+        for _ in 0..ntl {
+            let cs = master.next() >> 12;
+            run_timelimit(&mut sink, &mut stats, cs);
         }
         b_cap_observation(&mut sink);
     }
